@@ -5,7 +5,7 @@
    stored-block writer / reader. *)
 From Coq Require Import ZArith List Bool Lia.
 From ScV Require Import Base.CInt Gen.Codec C06.Res C06.ResProofs C06.B64Model C06.B64Spec C06.B64Proofs
-  C06.StoredModel C06.ArmorModel C06.ArmorProofs C07.DecodeModel.
+  C06.StoredModel C06.ArmorModel C06.ArmorProofs C07.PuffModel C07.DecodeModel C06.StoredProofs C06.StoredRoundtrip.
 Import ListNotations.
 Local Open Scope Z_scope.
 
@@ -306,18 +306,20 @@ Section Codec.
   Variable compress : list Z -> list Z.
   Variable unc : list Z -> Z -> Z -> bool -> res (list Z).
   Hypothesis compress_bytes : forall d, bytes d -> bytes (compress d).
-  Hypothesis unc_compress : forall d cap nil, bytes d ->
-    (nil = false -> len d <= cap) -> (nil = true -> d = []) ->
+  (* cap = the bytes really available at the destination, nil = the destination pointer is NULL *)
+  Hypothesis unc_compress : forall d cap nil, bytes d -> len d < M64 / 2 ->
+    len d <= cap -> (nil = true -> d = []) ->
     unc (compress d) (len d) cap nil = Ok d.
 
   Theorem decode_encode lb d out maxsz :
-    bytes d -> 9 + len (compress d) < M64 / 4 -> len d < M64 ->
+    bytes d -> 9 + len (compress d) < M64 / 4 -> len d < M64 / 2 ->
     0 < o_esz out -> (len d) mod (o_esz out) = 0 ->
     (maxsz <= 0 \/ len d <= maxsz) ->
     (o_owner out = false -> len d <= o_cnt out * o_esz out < M64) ->
     sc_decode_with unc (sc_encode_with compress lb d) out maxsz = Ok (len d / o_esz out, d).
   Proof.
     intros Hd Hc Hn Hesz Hmod Hmax Hview.
+    unfold M64 in Hn. change (18446744073709551616 / 2) with 9223372036854775808 in Hn.
     pose proof (len_nonneg d) as Hd0. pose proof (len_nonneg (compress d)) as Hc0.
     unfold sc_encode_with. set (p := info_header (len d) ++ compress d).
     assert (Hlp : len p = 9 + len (compress d)) by apply payload_len.
@@ -334,7 +336,7 @@ Section Codec.
     destruct (Z.ltb_spec (len p) 9); [lia|].
     unfold p at 1. rewrite payload_fc. cbn [bind]. change (negb (122 =? 122)) with false. cbv iota.
     unfold p at 1. rewrite payload_hdr. cbn [bind].
-    rewrite be_value_be8 by lia.
+    rewrite be_value_be8 by (unfold M64; lia).
     rewrite Hmod. change (negb (0 =? 0)) with false. cbv iota.
     assert (Hm : (0 <? maxsz) && (maxsz <? len d) = false).
     { destruct (Z.ltb_spec 0 maxsz); destruct (Z.ltb_spec maxsz (len d)); cbn [andb]; auto; lia. }
@@ -345,8 +347,9 @@ Section Codec.
     rewrite Hv.
     rewrite (u64_id (len p - 9)) by (unfold M64 in *; lia).
     unfold p at 1 2. rewrite payload_src. cbn [bind].
-    rewrite unc_compress; [reflexivity|exact Hd| |].
-    - intros Hnil. destruct (o_owner out); [lia|]. specialize (Hview eq_refl). lia.
+    rewrite unc_compress; [reflexivity|exact Hd|unfold M64; change (18446744073709551616 / 2) with 9223372036854775808; lia| |].
+    - destruct (o_owner out); [|specialize (Hview eq_refl); lia].
+      unfold owner_capacity. destruct (Z.ltb_spec 9223372036854775808 (len d)); lia.
     - intros Hnil. apply andb_true_iff in Hnil. destruct Hnil as [_ Hz]. apply Z.eqb_eq in Hz. now apply len_0_nil.
   Qed.
 End Codec.
@@ -359,7 +362,7 @@ Section Zlib.
   Hypothesis zlib_ok : forall l d, bytes d -> inflate (deflate l d) (len d) = Some d.
 
   Theorem decode_encode_zlib lvl lb d out maxsz :
-    bytes d -> 9 + len (deflate lvl d) < M64 / 4 -> len d < M64 ->
+    bytes d -> 9 + len (deflate lvl d) < M64 / 4 -> len d < M64 / 2 ->
     0 < o_esz out -> (len d) mod (o_esz out) = 0 ->
     (maxsz <= 0 \/ len d <= maxsz) ->
     (o_owner out = false -> len d <= o_cnt out * o_esz out < M64) ->
@@ -367,10 +370,41 @@ Section Zlib.
   Proof.
     apply (decode_encode (deflate lvl) (zlib_unc inflate)).
     - apply deflate_bytes.
-    - intros d0 cap nil Hd0 _ _. unfold zlib_unc. rewrite zlib_ok by assumption.
+    - intros d0 cap nil Hd0 _ Hcap _. unfold zlib_unc.
+      destruct (Z.ltb_spec cap (len d0)); [lia|]. rewrite zlib_ok by assumption.
       now rewrite Z.eqb_refl.
   Qed.
 End Zlib.
+
+(* ---- 4b. the build without zlib: everything is libsc's own code, no hypothesis ------------------------- *)
+Theorem decode_encode_stored lb d out maxsz :
+  bytes d -> len d < M64 / 8 ->
+  0 < o_esz out -> (len d) mod (o_esz out) = 0 ->
+  (maxsz <= 0 \/ len d <= maxsz) ->
+  (o_owner out = false -> len d <= o_cnt out * o_esz out < M64) ->
+  sc_decode (sc_encode_stored lb d) out maxsz = Ok (len d / o_esz out, d).
+Proof.
+  intros Hd Hn. unfold sc_decode, sc_encode_stored.
+  assert (Hn2 : len d < M64 / 2) by (unfold M64 in *; change (18446744073709551616 / 8) with 2305843009213693952 in Hn; change (18446744073709551616 / 2) with 9223372036854775808; lia).
+  apply (decode_encode noncompress nonuncompress).
+  - exact noncompress_bytes.
+  - intros d0 cap nil Hd0 Hl Hcap Hnil. apply stored_roundtrip; auto.
+  - exact Hd.
+  - rewrite (noncompress_len d Hd Hn2). pose proof (len_nonneg d) as H0.
+    unfold sc_io_noncompress_bound. unfold M64 in *. change (18446744073709551616 / 8) with 2305843009213693952 in Hn.
+    change (18446744073709551616 / 4) with 4611686018427387904.
+    change (s32 (65531 - 1)) with 65530. change (u64 65530) with 65530.
+    rewrite (u64_id (len d + 65530)) by (unfold M64; lia).
+    assert (Hq : 0 <= (len d + 65530) / 65531 <= len d + 65530) by (split; [apply Z.div_pos; lia|apply Z.div_le_upper_bound; lia]).
+    set (q := (len d + 65530) / 65531) in *.
+    destruct (Z.ltb_spec 1 q).
+    + rewrite (u64_id (5 * q)) by (unfold M64; lia). rewrite (u64_id (2 + 5 * q)) by (unfold M64; lia).
+      assert (Hq2 : 65531 * q <= len d + 65530) by (unfold q; apply Z.mul_div_le; lia).
+      rewrite (u64_id (2 + 5 * q + len d)) by (unfold M64; lia). rewrite u64_id by (unfold M64; lia). lia.
+    + change (u64 (5 * 1)) with 5. change (u64 (2 + 5)) with 7.
+      rewrite (u64_id (7 + len d)) by (unfold M64; lia). rewrite u64_id by (unfold M64; lia). lia.
+  - exact Hn2.
+Qed.
 
 (* ---- 5. sc_io_decode_info reads the original size and the format character ---------------------------- *)
 Theorem decode_info_encode compress lb d :
